@@ -107,7 +107,7 @@ func c18Scenario(out *vOut, g *c18Gen, ctx context.Context, gen string, mode str
 	forceEx := mode == "ex" // sampled measurements on a counter/histogram whose View drops a long attribute: exemplar refused
 	r := g.r
 	legacy := r.Intn(3) == 0
-	flags := fmt.Sprintf("%d%d%d%d%d%d", b2i(legacy), b2i(r.Intn(4) == 0), b2i(r.Intn(4) == 0), b2i(r.Intn(5) == 0), b2i(r.Intn(5) == 0), b2i(r.Intn(4) == 0))
+	flags := fmt.Sprintf("%d%d%d%d%d%d", b2i(legacy), b2i(r.Intn(4) == 0), b2i(r.Intn(4) == 0), b2i(r.Intn(5) == 0), b2i(r.Intn(5) == 0), c18ResFlag(r))
 	nsTok := "-"
 	if r.Intn(3) == 0 {
 		nsTok = vHex(vPick(r, g.namespaces))
@@ -127,22 +127,24 @@ func c18Scenario(out *vOut, g *c18Gen, ctx context.Context, gen string, mode str
 	// instruments
 	nScopes := 1
 	if r.Intn(5) == 0 && !forceF34 {
-		nScopes = 2
+		nScopes = 2 + r.Intn(2)
 	}
-	scopeNames := []string{"m", "scope.a", "", "lib/x"}
-	scopeVers := []string{"", "v1", "1.2.3"}
 	type scopeSpec struct {
-		name, ver string
-		insts     []c18Inst
+		name, ver, schema string
+		attrs             []attribute.KeyValue
+		insts             []c18Inst
 	}
 	var scopes []scopeSpec
 	for s := 0; s < nScopes; s++ {
-		sp := scopeSpec{name: vPick(r, scopeNames), ver: vPick(r, scopeVers)}
-		if s == 1 && sp.name == scopes[0].name && sp.ver == scopes[0].ver {
-			sp.ver += "b"
+		sp := scopeSpec{}
+		sp.name, sp.ver, sp.schema, sp.attrs = c18ScopeID(r)
+		if s >= 1 && r.Intn(2) == 0 {
+			// a scope that differs from the first one only in its version / schema URL / scope attributes (a distinct
+			// instrumentation.Scope: its own meter, its own otel_scope_info series)
+			sp.name, sp.ver, sp.schema, sp.attrs = c18ScopeVariant(r, scopes[0].name, scopes[0].ver, scopes[0].schema, scopes[0].attrs)
 		}
 		ni := 1 + r.Intn(3)
-		if s == 1 {
+		if s >= 1 {
 			ni = 1
 		}
 		if forceF34 {
@@ -159,8 +161,8 @@ func c18Scenario(out *vOut, g *c18Gen, ctx context.Context, gen string, mode str
 					_, in.name = g.name()
 				}
 			}
-			if s == 1 {
-				in.name = "zq" + in.name // scope order is a map order: keep the two scopes' families apart
+			if s >= 1 {
+				in.name = []string{"zq", "zr"}[s-1] + in.name // scope order is a map order: keep the scopes' families apart
 			}
 			in.unit = g.unit()
 			in.desc = vPick(r, []string{"", "d1", "d2", "some help"})
@@ -272,7 +274,7 @@ func c18Scenario(out *vOut, g *c18Gen, ctx context.Context, gen string, mode str
 
 	dupTag := 0
 	for _, sp := range scopes {
-		m := mp.Meter(sp.name, metric.WithInstrumentationVersion(sp.ver))
+		m := mp.Meter(sp.name, metric.WithInstrumentationVersion(sp.ver), metric.WithSchemaURL(sp.schema), metric.WithInstrumentationAttributes(sp.attrs...))
 		for _, in := range sp.insts {
 			nSets := 1 + r.Intn(3)
 			if forceF28 {
@@ -384,6 +386,59 @@ func (b *c18Built) emit(out *vOut, ctx context.Context, gen string, obs string) 
 		sep = " | "
 	}
 	out.Line("e2e %s %s %s %s%s%s => %s", gen, b.flags, b.nsTok, c18SetKVs(*rm.Resource.Set()), sep, data, obs)
+}
+
+// c18ScopeID draws an instrumentation scope identity: name, version, schema URL, scope attributes (mostly none; keys that
+// collide after sanitising, that are named like the scope labels, and — rarely — that the registry refuses, which makes
+// the collector remember the scope as invalid and skip it).
+func c18ScopeID(r *vRand) (name, ver, schema string, attrs []attribute.KeyValue) {
+	name = vPick(r, []string{"m", "scope.a", "", "lib/x"})
+	ver = vPick(r, []string{"", "v1", "1.2.3"})
+	if r.Intn(4) == 0 {
+		schema = vPick(r, []string{"https://opentelemetry.io/schemas/1.21.0", "https://opentelemetry.io/schemas/1.26.0"})
+	}
+	if r.Intn(3) == 0 {
+		attrs = c18ScopeAttrs(r)
+	}
+	return
+}
+
+func c18ScopeAttrs(r *vRand) []attribute.KeyValue {
+	keys := []string{"tenant", "tenant", "tenant.id", "tenant_id", "region", "a", "é", "otel_scope_name", "otel.scope.version", "otel_scope_version"}
+	var attrs []attribute.KeyValue
+	for k := 1 + r.Intn(3); k > 0; k-- {
+		switch r.Intn(6) {
+		case 0:
+			attrs = append(attrs, attribute.Int(vPick(r, keys), r.Intn(3)))
+		case 1:
+			attrs = append(attrs, attribute.Bool(vPick(r, keys), r.Bool()))
+		default:
+			attrs = append(attrs, attribute.String(vPick(r, keys), vPick(r, c18Vals)))
+		}
+	}
+	if r.Intn(25) == 0 {
+		attrs = append(attrs, vPick(r, []attribute.KeyValue{attribute.String("__reserved", "x"), attribute.String("bad", "\xff"), attribute.String("k:c", "v")}))
+	}
+	return attrs
+}
+
+// c18ScopeVariant returns a scope identity that differs from the given one in exactly one of version / schema URL /
+// scope attributes (or, 1 in 8, in nothing: the same meter again).
+func c18ScopeVariant(r *vRand, name, ver, schema string, attrs []attribute.KeyValue) (string, string, string, []attribute.KeyValue) {
+	switch r.Intn(8) {
+	case 0, 1:
+		ver += "b"
+	case 2:
+		schema += "/x"
+	case 3:
+		// nothing
+	default:
+		attrs = append(append([]attribute.KeyValue{}, attrs...), attribute.String("tenant", vPick(r, []string{"t1", "t2", "t3"})))
+		if r.Intn(4) == 0 {
+			attrs = append(attrs, attribute.String("region", "eu"))
+		}
+	}
+	return name, ver, schema, attrs
 }
 
 func c18Legal(s string) bool {
